@@ -55,6 +55,9 @@ def plan(tier, seed):
         tc.append(mk(n3, 3, ie3, 4))
         rn, rie = REDIS_QUICK[seed % len(REDIS_QUICK)]
         tc.append(mkredis(rn, 2, rie, 3, reinit=["new", "restart", "same"][seed % 3]))
+        # and always one redis configuration in which in-flight entries are re-written when they are replayed (in-flight expiry
+        # "never") with re-initialisation on a new / the same object
+        tc.append(mkredis("qos", 2, "never", 3, reinit=["new", "same"][seed % 2]))
         design = [mk(names[seed % len(names)], 2, ies[seed % 3], 3)]      # 3 messages: ~10^5 transitions
         return design, tc
     tc, design = [], []
